@@ -1447,6 +1447,9 @@ def conv_line(year, sa, sb):
 def run(ctx: Ctx) -> Outcome:
     out = Outcome()
     rng = ctx.rng
+    import sideeffects
+
+    sideeffects.exercise(out)  # the constants' header writers / printers / comparison reports before any conversion is asked for
     _DEV.clear()
     cases = [(blk, y, ta, tb, decorate_top(sa, rng), decorate_top(sb, rng)) for (blk, y, ta, tb, sa, sb) in gen_cases(ctx)]
     cases += list(drop_cases(ctx))
